@@ -172,7 +172,7 @@ Proof.
     + destruct f; try (apply records_push; [reflexivity | right; reflexivity]).
       apply records_push; [destruct (sym_has s0 (sym s)); reflexivity | right; reflexivity].
     + destruct r0 as [r1|]; [|apply records_push; [reflexivity | right; reflexivity]].
-      destruct (get_const l), (get_const r1); destruct (String.eqb op "JMP");
+      destruct (if far_dt_ok dt then seg_num l else None), (seg_num r1); destruct (String.eqb op "JMP");
         try (apply records_push; [reflexivity | first [right; reflexivity | left; reflexivity]]); apply records_same; reflexivity.
   - unfold do_jcc. destruct ops as [|o1 [|]]; try (apply records_same; reflexivity).
     destruct (eval_top (env_of s) o1) as [e r|]; [|apply records_same; reflexivity].
@@ -180,7 +180,7 @@ Proof.
     + destruct f; try (apply records_push; [reflexivity | right; reflexivity]).
       apply records_push; [destruct (sym_has s0 (sym s)); reflexivity | right; reflexivity].
     + destruct r0 as [r1|]; [|apply records_push; [reflexivity | right; reflexivity]].
-      destruct (get_const l), (get_const r1); cbn [String.eqb Ascii.eqb Bool.eqb];
+      destruct (if far_dt_ok dt then seg_num l else None), (seg_num r1); cbn [String.eqb Ascii.eqb Bool.eqb];
         try (apply records_push; [reflexivity | first [right; reflexivity | left; reflexivity]]); apply records_same; reflexivity.
   - unfold emit. destruct (kind_known op); [apply records_push; [reflexivity | left; reflexivity] | apply records_same; reflexivity].
   - unfold emit. destruct (kind_known "RET"); [apply records_push; [reflexivity | left; reflexivity] | apply records_same; reflexivity].
